@@ -1,6 +1,7 @@
 package main
 
 import (
+	"bytes"
 	"encoding/binary"
 	"encoding/hex"
 	"flag"
@@ -170,7 +171,7 @@ func c04entries() []c04entry {
 	add("pac.UPNDNSInfo", "bin", hexes(testdata.MarshaledPAC_UPN_DNS_Info), func(b []byte) error { var m pac.UPNDNSInfo; return m.Unmarshal(b) })
 	add("pac.SignatureData", "bin", hexes(testdata.MarshaledPAC_Server_Signature, testdata.MarshaledPAC_KDC_Signature), func(b []byte) error { var m pac.SignatureData; _, err := m.Unmarshal(b); return err })
 	add("pac.ClientClaimsInfo", "bin", hexes(testdata.MarshaledPAC_ClientClaimsInfoStr, testdata.MarshaledPAC_ClientClaimsInfoMulti), func(b []byte) error { var m pac.ClientClaimsInfo; return m.Unmarshal(b) })
-	add("pac.CredentialsInfo", "bin", hexes("0000000012000000" + strings.Repeat("ab", 60)), func(b []byte) error { var m pac.CredentialsInfo; return m.Unmarshal(b, key18) })
+	add("pac.CredentialsInfo", "bin", hexes("0000000012000000"+strings.Repeat("ab", 60)), func(b []byte) error { var m pac.CredentialsInfo; return m.Unmarshal(b, key18) })
 	add("messages.Ticket.GetPACType", "der", hexes(testdata.MarshaledPAC_AuthorizationData_GOKRB5, testdata.MarshaledPAC_AuthorizationData_MS, "3000"), func(b []byte) error {
 		var ad types.AuthorizationData
 		if err := ad.Unmarshal(b); err != nil {
@@ -309,6 +310,8 @@ func c04inputs(e c04entry, thorough bool, each func(in c04input) bool) {
 				for v := 0; v < 256; v++ {
 					vals = append(vals, byte(v))
 				}
+			} else if e.format == "text" {
+				vals = append([]byte("#;={}[]\n\r\t ,*\"/."), 0x00, 0xff) // the characters the text format gives a meaning to
 			} else {
 				vals = subs(item[pos])
 			}
@@ -321,6 +324,26 @@ func c04inputs(e c04entry, thorough bool, each func(in c04input) bool) {
 				idx++
 				if !each(c04input{"substitute", ci, pos*256 + int(v), m}) {
 					return
+				}
+			}
+		}
+		if e.format == "bin" || (thorough && e.format == "der") {
+			// length / count / offset fields of the binary formats are 16, 32 or 64 bits wide in either byte order: every position is
+			// overwritten with the values at which signed/unsigned arithmetic on such a field goes wrong
+			words := [][]byte{{0, 0, 0, 0}, {0xff, 0xff, 0xff, 0xff}, {0xff, 0xff, 0xff, 0xfc}, {0xff, 0xff, 0xff, 0xf8}, {0x80, 0, 0, 0}, {0x7f, 0xff, 0xff, 0xff},
+				{0xfc, 0xff, 0xff, 0xff}, {0xf8, 0xff, 0xff, 0xff}, {0, 0, 0, 0x80}, {0xff, 0xff, 0xff, 0x7f},
+				{0xff, 0xff}, {0x80, 0x00}, {0x00, 0x80}, {0x7f, 0xff}, {0xff, 0x7f}, {0xff, 0xfe}, {0xfe, 0xff},
+				{0xff, 0xff, 0xff, 0xff, 0xff, 0xff, 0xff, 0xff}, {0, 0, 0, 0, 0, 0, 0, 0x80}, {0xff, 0xff, 0xff, 0xff, 0xff, 0xff, 0xff, 0x7f}}
+			for pos := 0; pos < len(item); pos++ {
+				for wi, w := range words {
+					if pos+len(w) > len(item) || bytes.Equal(item[pos:pos+len(w)], w) {
+						continue
+					}
+					m := append([]byte{}, item...)
+					copy(m[pos:], w)
+					if !each(c04input{"setword", ci, pos*32 + wi, m}) {
+						return
+					}
 				}
 			}
 		}
